@@ -251,6 +251,55 @@ def sweep_real_interrupts(text, options, stride=1):
             fails.append('event %d of %d: %s' % (k, total, x))
         if len(fails) > 5:
             break
+    # the command-line driver: Droop.main() catches the interrupt itself and renders report + dump + json
+    try:
+        import tempfile
+        import Droop
+        with tempfile.NamedTemporaryFile('w', suffix='.blt', delete=False) as tf:
+            tf.write(text)
+        for k in range(3, total, max(stride * 7, 7)):
+            n = [0]
+            fired = [False]
+
+            def tracer2(frame, event, arg):
+                if not frame.f_code.co_filename.startswith(droop_dir):
+                    return None
+                if event == 'line' and frame.f_code.co_filename.endswith(('rules' + os.sep + 'x',)) is False:
+                    pass
+                if event == 'line':
+                    # only events inside Election.count(): the profile is parsed and the election constructed before
+                    f_ = frame
+                    inside = False
+                    while f_ is not None:
+                        if f_.f_code.co_name == 'count' and f_.f_code.co_filename.endswith('election.py'):
+                            inside = True
+                            break
+                        f_ = f_.f_back
+                    if inside:
+                        if n[0] == k and not fired[0]:
+                            fired[0] = True
+                            n[0] += 1
+                            raise KeyboardInterrupt
+                        n[0] += 1
+                return tracer2
+            sys.settrace(tracer2)
+            try:
+                out = Droop.main(dict(dict(options), path=tf.name, dump=True, json=True))
+            except KeyboardInterrupt:
+                fails.append('event %d: Droop.main() let the interrupt escape' % k)
+                continue
+            finally:
+                sys.settrace(None)
+            done += 1
+            if not fired[0]:
+                continue
+            if out.count(INTR_REPORT) != 1 or out.count(INTR_LOG) != 3:
+                fails.append('event %d: Droop.main() output carries %d report markers and %d interrupt log lines (1 and 3 expected)' % (k, out.count(INTR_REPORT), out.count(INTR_LOG)))
+            if len(fails) > 5:
+                break
+        os.unlink(tf.name)
+    except ImportError:
+        pass
     return dict(violated=bool(fails), detail=fails[:5], events=total, interrupts=done)
 
 
